@@ -113,6 +113,19 @@ fn corpus() -> Vec<Vec<u8>> {
     c
 }
 
+fn contains(h: &[u8], n: &[u8]) -> bool { n.is_empty() || h.windows(n.len()).any(|w| w == n) }
+/// the file embeds an intact stored-block stream of plaintext p behind an intact wrapper (only such files are checked)
+fn stored_payload_present(f: &[u8], p: &[u8]) -> bool {
+    for blk in [65535usize, 400, 1024, 1] {
+        let raw = stored_stream(p, blk);
+        if !contains(f, &raw) { continue; }
+        for hdr in [[0x78u8, 0x01], [0x78, 0x5e], [0x78, 0x9c], [0x78, 0xda]] { let mut z = hdr.to_vec(); z.extend_from_slice(&raw); if contains(f, &z) && !contains(f, b"IDAT") { return true; } }
+        for flags in [0u8, 2, 4, 8, 16, 30, 12] { let g = gzip_wrap(flags, &raw, p); if contains(f, &g[..g.len() - 8]) { return true; } }
+        for (name, extra) in [(&b""[..], &b""[..]), (b"a.txt", b""), (b"n", b"\x01\x02\x03")] { let z = zip_wrap(name, extra, &raw); if contains(f, &z) { return true; } }
+    }
+    false
+}
+
 fn report(prop: &str, what: &str, input: &[u8]) -> ! {
     println!("FAILING-INPUT property={} what={:?} len={} hex={}", prop, what, input.len(), hex(&input[..input.len().min(4096)]));
     panic!("{}: {}", prop, what);
@@ -155,6 +168,15 @@ fn verif_search() {
                 let r = std::panic::catch_unwind(move || { let mut o = Vec::new(); let r = recreated_zlib_chunks(&mut std::io::Cursor::new(expanded), &mut o); (r.is_ok(), o) });
                 match r { Ok((true, o)) => out = o, Ok((false, _)) => report(&which, "recreated_zlib_chunks returned Err on expand's output", f), Err(_) => report(&which, "recreated_zlib_chunks panicked", f) }
                 if &out != f { report(&which, "round trip differs", f); }
+            }
+            "c06" => {
+                // detection: the expanded form must carry the plaintext of every embedded stream we planted, verbatim
+                for (n, _blk) in [(1100usize, 65535usize), (1500, 400), (3000, 1024), (1025, 1)] {
+                    let p = plain(n, n as u64);
+                    let planted = f.windows(2).any(|w| w == [0x78, 0x01] || w == [0x78, 0x5e] || w == [0x78, 0x9c] || w == [0x78, 0xda] || w == [0x1f, 0x8b] || w == [0x50, 0x4b])
+                        && stored_payload_present(f, &p);
+                    if planted && !contains(&expanded, &p) { report(&which, &format!("embedded stream with {} bytes of plaintext was copied, not expanded", n), f); }
+                }
             }
             "c11" => {
                 if f.len() > 6000 { continue; }
